@@ -15,10 +15,8 @@ COMMON_NOTE = ("Trusted base: Lean 4.33 kernel (axioms audited on every run to b
 
 # id -> (what the theorems establish, what is partial / assumed in addition)
 TEXT = {
-    'C01': ("Lean theorems compose the endpoint contracts: the sender model emits exactly Spec.segment (C02 invariant), Spec.segment is a "
-            "Spec.WellFormed stream, and the receiver model delivers exactly the payload of every well-formed stream (C03) - for every payload, "
-            "configuration and address prefix; two real layers and the two-layer model run the same random schedules and must agree.",
-            "The liveness half (progress under 'processed regularly') is proved per endpoint (no wedged state, C04) and checked on schedules, not proved for the composed network."),
+    'C01': ('Lean theorems at network level (two mirrored layers joined by two in-order links, Isotp/Net.lean): for EVERY schedule of sends, full and transmit-only passes, deliveries, clock ticks and recv calls, what each side received is a prefix of what the other sent (byte-identical, in order, at most once) and no error of any kind is reported as long as no timeout fires (C01net.safety, safety_timeouts, clean_exchange, conservation); on the canonical cooperative schedule every payload is delivered after exactly roundsFor rounds for every block size, STmin, mode and link size (C01live.transfer_completes); endpoint contracts: the sender emits exactly Spec.segment (C02), the receiver reassembles every Spec.WellFormed stream (C03); two real layers and the two-layer model run the same random schedules and must agree.',
+            'Progress for ARBITRARY fair schedules is proved per endpoint only (no wedged state, process terminates) and explored on schedules; the composed liveness theorem is for the canonical schedule.'),
     'C02': ("Lean theorems: the transmit FSM of the model produces, for every payload/configuration, exactly the frames of the reference "
             "Spec.segment (invariant TxProg over arbitrary interleavings), padding/DLC closed forms equal the code's on the whole finite domain "
             "(kernel-checked tables regenerated from /repo), send() refuses sizes >= 2^32.", ""),
@@ -37,10 +35,10 @@ TEXT = {
             "since the previous one; STmin byte decoding equals the code's on all 256 bytes (kernel-checked table).", "Virtual clock."),
     'C09': ("Lean theorems: is_for_me of the model equals the documented reception condition for every address and frame; frames not for me "
             "change nothing; emitted id/prefix are the documented ones and are accepted by the mirrored address; Functional sends restricted to single frames.", ""),
-    'C10': ("Same endpoint theorems as C01 (they are stated for arbitrary traffic in the other direction) plus exhaustive-interleaving "
-            "correspondence of the two-layer model against two real layers.", "Composed no-deadlock is checked on explored schedules, not proved."),
-    'C11': ("Endpoint theorems (receiver delivers only complete, in-sequence messages; sender emits only prefixes of segmentations and always ends) "
-            "plus exhaustive single-fault enumeration on real layers vs the model.", "The composed one-fault statement over the network is enumerated, not proved."),
+    'C10': ('The network-level theorems of C01 hold with both directions active at once (they are stated for arbitrary schedules of both layers), plus the mailbox discipline: when every pass that reads also transmits (full and transmit-only passes, the schedule space of the property) a received Flow Control is consumed by the next transmit pass before any other frame is read (C10.fc_never_lost, mailbox_inv_reachable), frame conditions between the directions, no wedged state in full duplex; exhaustive-interleaving correspondence of the two-layer model against two real layers.',
+            "Composed progress ('no interleaving reaches a stuck state') is proved per endpoint and explored exhaustively on short interleavings, not proved for the composed network."),
+    'C11': ('Lean theorems: one dropped or duplicated frame anywhere in a multi-message exchange leaves deliveries = sent list minus at most the hit message (twice for a duplicated Single Frame), never truncated/merged/corrupted (c11_never_corrupt, contained_any_aborts, message_fate), the loss of a multi-frame message is reported (loss_detected), later messages are delivered normally (c11_rest_normal), also across timeouts (C11abort) and sequence-number wrap; ignored frames never move the N_Cr deadline (C07ign); plus exhaustive single-fault enumeration on real layers vs the model.',
+            "Return to idle 'within the configured timeouts' is derived from the timer invariants per endpoint and checked on the virtual clock."),
     'C12': ("Lean theorems: request conservation (queued + active + completed is a permutation of accepted ids over every operation), hence "
             "exactly-once completion; aborts complete with failure; success only in the pass that outputs the last frame.", "Blocking send: logic proved, real threads sampled."),
     'C13': ("Lean theorems on the threaded model: relay queue preserves bus order, sends are linearised in queue order, no lost wake-up, "
